@@ -226,10 +226,19 @@ def run_case(ci, hist, cut, mech, suf_o, suf_c, order):
         before = snapshot(other.impl.sm, field)
         for ev in suf:
             n += 1
+            hits_before = len(pr.impl.sm.hits)
             msg = pr.send(ev, {"g1": (n % 2 == 0)}, tag=f"{who}{n}", style=style)
             steps += 1
             if msg:
                 return f"{'original' if who == 'o' else 'clone'} suffix {ev}: {msg}", steps
+            # the per-instance hook (an attribute set before StateMachine.__init__) runs whenever
+            # s2 is entered - on the original and on the clone alike
+            entered = sum(1 for r in pr.impl.env.flat
+                          if r.cid == ("sm", "on_enter_state") and r.target == "s2")
+            if len(pr.impl.sm.hits) - hits_before != entered:
+                return (f"{'original' if who == 'o' else 'clone'} suffix {ev}: s2 was entered "
+                        f"{entered} time(s) but the instance-level hook on_enter_s2 ran "
+                        f"{len(pr.impl.sm.hits) - hits_before} time(s)"), steps
             msg = pr.check_views()
             if msg:
                 return f"{'original' if who == 'o' else 'clone'} after {ev}: {msg}", steps
@@ -241,6 +250,44 @@ def run_case(ci, hist, cut, mech, suf_o, suf_c, order):
             return (f"driving the {'original' if who == 'o' else 'clone'} changed the other: "
                     f"{before} -> {after}"), steps
     return None, steps
+
+
+def property_guard_probe(res):
+    """A guard given as a property object of a listener class, with a second listener of that
+    class attached at construction or later: whatever the original consults, its clone consults
+    the same (differential oracle: original vs clone, every valuation)."""
+    from ..copy_machines import PropDoor, PropLock
+    for mech in ("deepcopy", "pickle", "deepcopy-of-deepcopy"):
+        for second in ("none", "constructor", "late"):
+            for v1 in (True, False):
+                for v2 in (True, False):
+                    locks = [PropLock(v1)] + ([PropLock(v2)] if second == "constructor" else [])
+                    sm = PropDoor(listeners=locks)
+                    if second == "late":
+                        sm.add_listener(PropLock(v2))
+                    res.stats["evaluations"] += 1
+                    res.stats["states"] += 1
+                    res.hist["property-guard-probe"] += 1
+                    try:
+                        clone = clone_of(sm, mech)
+                    except Exception as e:   # noqa: BLE001
+                        res.violation({"category": "property-guard-clone", "mech": mech},
+                                      {"prop_guard": [mech, second, v1, v2]},
+                                      f"{mech} raised {type(e).__name__}: {e}")
+                        continue
+                    out = []
+                    for m_ in (sm, clone):
+                        try:
+                            m_.send("open")
+                            out.append(m_.current_state.id)
+                        except m_.TransitionNotAllowed:
+                            out.append("refused")
+                    if out[0] != out[1]:
+                        res.violation({"category": "property-guard-clone", "mech": mech},
+                                      {"prop_guard": [mech, second, v1, v2]},
+                                      f"guard given as the property object PropLock.is_unlocked, "
+                                      f"first lock {v1}, second lock ({second}) {v2}: the original "
+                                      f"answers {out[0]!r}, its {mech} clone {out[1]!r}")
 
 
 def cases(tier):
@@ -272,6 +319,8 @@ def cases(tier):
 def worker(block):
     tier, lo, hi = block
     res = BlockResult()
+    if lo == 0:
+        property_guard_probe(res)
     for (ci, hist, cut, mech, so, sc, order) in cases(tier)[lo:hi]:
         scj = {"config": CONFIGS[ci][0], "ci": ci, "history": list(hist), "cut": cut, "mech": mech,
                "suffix_original": list(so), "suffix_clone": list(sc), "order": order}
@@ -293,7 +342,7 @@ def worker(block):
 
 
 def _cat(msg):
-    for key in ("ran callbacks", "raised", "options", "differs at the copy point", "shares", "changed the other",
+    for key in ("instance-level hook", "ran callbacks", "raised", "options", "differs at the copy point", "shares", "changed the other",
                 "stored state", "trace", "exception", "outcome kind", "result", "hung",
                 "current_state", "allowed_events", "dirty"):
         if key in msg:
@@ -329,6 +378,13 @@ def run(tier, seed):
 
 
 def replay(sc):
+    if "prop_guard" in sc:
+        res = BlockResult()
+        property_guard_probe(res)
+        for v in res.violations:
+            if v["scenario"] == sc:
+                return v["message"]
+        return None
     msg, _ = run_case(sc["ci"], tuple(sc["history"]), sc["cut"], sc["mech"],
                       tuple(sc["suffix_original"]), tuple(sc["suffix_clone"]), sc["order"])
     return msg
